@@ -73,13 +73,16 @@ def run(tier):
             if ob["n"] == 0 and ob["nfresh"] == 0:
                 continue
             if ob["reldiff"] > TOL or ob["n"] != ob["nfresh"]:
-                ck.disagree({"module": "KrigCalcCache", "mode": sc["mode"], "getter": ob["g"],
+                ck.disagree({"module": "KrigCalcCache", "mode": sc["mode"], "style": sc.get("style", "address"), "getter": ob["g"],
                              "after": [h.get("g", h["op"]) for h in sc["hist"][:ob["step"] - 1]]},
                             {"script": sc, "observation": ob})
     if nget == 0:
         raise Broken("KrigCalcCache: nothing observed")
     nscripts += len(scripts)
+    if not any(sc.get("style") == "inplace" for sc in scripts):
+        raise Broken("KrigCalcCache: no in-place history")
     ck.cov["krigcalc_histories"] = len(scripts); ck.cov["krigcalc_getter_observations"] = nget
+    ck.cov["krigcalc_styles"] = sorted(set(sc.get("style", "address") for sc in scripts))
     ck.sample({"module": "KrigCalcCache", "script": scripts[len(scripts) // 2]})
     log("[C10] KrigCalcCache: %d states, %d histories, %d getter observations" % (res.distinct, len(scripts), nget))
 
